@@ -169,6 +169,7 @@ def decode(code, forbidden):
         key = list(BAD_SIGS)[bsig_c]
         case["members"][top].append({"n": "badsig", "kind": kinds[bdeco_c], "rawsig": BAD_SIGS[key]})
         case["defect"] = ["signature", key]
+    case["bases_first"] = bool(bsig_c % 2)
     return case
 
 
@@ -250,6 +251,18 @@ class C12(Lab):
             allowed.append(smm.MultipleFirstStatesError)
         if ndef > 1:
             allowed.append(smm.MultipleDefaultStatesError)
+        if case.get("bases_first"):
+            # other classes of the hierarchy are instantiated (and bound) first, as happens when a robot
+            # has components of a base class and of a derived class; that must not influence the derived one
+            for cname, _ in HIER[case["hier"]][:-1]:
+                try:
+                    o = ns[cname]()
+                    o.logger = None
+                    simenv.nt_reset()
+                    setup_tunables(o, "other", "components")
+                except Exception:  # noqa - ill-formed bases are not the subject here
+                    pass
+            classes.append("bases-instantiated-first")
         inst = None
         try:
             inst = cls()
